@@ -52,5 +52,30 @@ CHECKS["C06"] = {
     "level_note": "Trusts the harness world; observables are those listed in the rule (internal state that never becomes observable is not compared).",
 }
 
+CHECKS["C01"] = {
+    "level": "exploration",
+    "rule": "deploy of a new service / redeploy / rollout deploy with 1-4 new targets, each with a generated probe script "
+            "(refused, 300/304/400/404/500/503, answers at probe-timeout -1/=/+1 ms, stall, 200/201/204/299, success after k failures, "
+            "never healthy), interval/probe-timeout/deploy-timeout from a grid so that healthy just before / at / after the deadline "
+            "are frequent, 0-6 client requests at drawn virtual instants while the command runs plus 3 intervals of follow-up "
+            "requests; oracle from the fake targets' own logs (T_ok = first 2xx answer sent). Non-trivial = >=1 target with a "
+            "failing attempt AND >=1 client request that arrived while the command was running. Distinct by plan hash.",
+    "layers": [L("TestVF_C01", 1500, 20000)],
+    "technique": "property-based testing (rapid) on a virtual clock: generated probe-outcome scripts and request instants, invariant over the targets' observed logs",
+    "level_text": "Bounded random exploration with exact virtual time: every timeout relation (before / at / after) is generated on purpose and compared exactly; ties are accepted either way.",
+    "level_note": "Trusts synctest's fake clock, the in-memory network and the fake targets' logs; quiescent observation only (the probe-goroutine window is C02's).",
+}
+CHECKS["C17"] = {
+    "level": "exploration",
+    "rule": "C01's scenarios with request service times and exact return-instant oracles for deploy / rollout deploy "
+            "(success: instant the last target became healthy + drain of the replaced set; failure: exactly deploy-timeout), "
+            "and no probe after the command at retired or rejected targets. Non-trivial = a command that returned strictly before "
+            "its bound for a computed reason, or hit the bound exactly. Distinct by plan hash.",
+    "layers": [L("TestVF_C17_Deploy", 1500, 20000)],
+    "technique": "property-based testing (rapid) on a virtual clock: exact return-time oracle, probe-log invariant",
+    "level_text": "Bounded random exploration; the virtual clock makes 'returns as soon as its condition is met' an exact equality instead of a sleep-based guess.",
+    "level_note": "Trusts synctest's fake clock and the harness world.",
+}
+
 ALL_IDS = ["C%02d" % i for i in range(1, 21)]
 NOT_APPLICABLE = {pid: "check not built yet (work in progress; see DESIGN.md section 8 for the order of work)" for pid in ALL_IDS if pid not in CHECKS}
